@@ -105,6 +105,15 @@ Init ==
                           [] shape = 5 -> <<[t |-> "filter", chain |-> <<FC("default", Var(<<"l">>)), FC("join", Lit(S(<<",">>)))>>, body |-> <<>>]>>
                           [] shape = 6 -> <<Set("lst", [t |-> "arr", items |-> <<e1, Lit(I(1))>>]),
                                             [t |-> "filter", chain |-> <<FC("default", Var(<<"lst">>)), FC("first", NoArg)>>, body |-> <<>>]>>)
+       [] Family = "chainparam" ->
+            \* text that enters through the *parameter* of a later filter of a chain, whatever stands earlier in the chain
+            \* (escape, e, lower ...): no filter of a chain is an opt-out for what another one brings in
+            \E s \in 1..Len(Sources), t1 \in {1, 2, 3, 6}, f1 \in {"escape", "e", "lower", "capfirst", "cut"}, f2 \in {"add", "default", "join"}, k \in {1, 2, 3, 6} :
+              prog = Tr(TransportKinds[t1], 1, Sources[s], LAMBDA e1 :
+                        LET first == IF f1 = "cut" THEN FC("cut", Lit(S(<<"t">>))) ELSE FC(f1, NoArg) IN
+                        LET base == IF f2 = "add" THEN Lit(S(<<"t">>)) ELSE IF f2 = "default" THEN Lit(S(<<>>)) ELSE [t |-> "arr", items |-> <<Lit(S(<<"a">>)), Lit(S(<<"b">>))>>] IN
+                        LET chain == IF f2 = "join" THEN <<FC("join", e1), first>> ELSE <<first, FC(f2, e1)>> IN
+                        Sink(SinkKinds[k], Filt(base, chain)))
        [] Family = "filters" ->
             \E f \in RegFilters, a \in 1..Len(SymArgs), s \in 1..Len(Sources), k \in {1, 2, 3}, t1 \in {1, 2, 6} :
               prog = Tr(TransportKinds[t1], 1, Sources[s], LAMBDA e1 : Sink(SinkKinds[k], Filt(e1, <<FC(f, SymArgs[a])>>)))
